@@ -398,6 +398,12 @@ _RULE = ("Scripted RNG byte streams (never constant): k rejected boundary words 
          "before the draw / Err / Panic / fills / sweeps.")
 
 
+def prebuild(root):
+    """translator: regenerate coq/Generated/RandGen.v from /repo/src/random.rs (both expansions of uniform_int_impl!, the Standard impls;
+    proved equal to the model in Proofs/RandGenTie*.v)"""
+    return run_translator(root, "rs2v_rand.py", "C20")
+
+
 def __getattr__(name):
     if name == "RULE":
         return _RULE + (" PREIMAGE COUNTS: %d fully swept (op,config,low,high) ranges had every value of the range hit by "
